@@ -184,7 +184,7 @@ type World struct {
 	seq     int
 	Budget  [NumBudgets]int
 	Blocked [][]bool
-	HoldFrom []bool // per node id: outgoing messages are born delayed
+	HoldFrom []uint8 // per node id: outgoing messages are born delayed (0 = none, 0xff = all, otherwise only those addressed to that peer)
 	PropSeq int
 	ReadSeq int
 	PC      int // script position
@@ -217,7 +217,7 @@ const (
 // NewWorld builds the initial world of a scenario.
 func NewWorld(sc *Scenario, mons []Monitor) *World {
 	w := &World{Sc: sc, Budget: sc.Budget, Mons: mons, Counters: map[string]int{}}
-	w.HoldFrom = make([]bool, sc.N+1)
+	w.HoldFrom = make([]uint8, sc.N+1)
 	w.Blocked = make([][]bool, sc.N+1)
 	for i := range w.Blocked {
 		w.Blocked[i] = make([]bool, sc.N+1)
@@ -401,7 +401,7 @@ func (w *World) release(rec *StepRec, m *pb.Message) {
 	}
 	rec.Released = append(rec.Released, cp)
 	w.seq++
-	nm := NetMsg{Enc: string(b), M: cp, Seq: w.seq, Delayed: (w.Sc.SlowSnap && m.GetType() == pb.MsgSnap) || w.HoldFrom[from]}
+	nm := NetMsg{Enc: string(b), M: cp, Seq: w.seq, Delayed: (w.Sc.SlowSnap && m.GetType() == pb.MsgSnap) || w.HoldFrom[from] == 0xff || (w.HoldFrom[from] != 0 && uint64(w.HoldFrom[from]) == to)}
 	// insert sorted by (Enc, Seq)
 	k := sort.Search(len(w.Net), func(i int) bool { return w.Net[i].Enc > nm.Enc })
 	w.Net = append(w.Net, NetMsg{})
@@ -1009,10 +1009,14 @@ func (w *World) exec(ev Event, n *Node, rec *StepRec) {
 			}
 		}
 		for i := range w.HoldFrom {
-			w.HoldFrom[i] = false
+			w.HoldFrom[i] = 0
 		}
 	case EvHoldFrom:
-		w.HoldFrom[ev.Node] = true
+		if ev.Peer > 0 {
+			w.HoldFrom[ev.Node] = ev.Peer
+		} else {
+			w.HoldFrom[ev.Node] = 0xff
+		}
 	case EvFlush:
 		for k := range w.Net {
 			w.Net[k].Delayed = false
@@ -1085,7 +1089,7 @@ func (w *World) Clone() *World {
 		c.Counters[k] = v
 	}
 	c.Net = append([]NetMsg(nil), w.Net...)
-	c.HoldFrom = append([]bool(nil), w.HoldFrom...)
+	c.HoldFrom = append([]uint8(nil), w.HoldFrom...)
 	c.Blocked = make([][]bool, len(w.Blocked))
 	for i := range w.Blocked {
 		c.Blocked[i] = append([]bool(nil), w.Blocked[i]...)
